@@ -107,6 +107,17 @@ def t_restricted_then_semicolon(text, res):
     return False
 
 
+def t_restricted_keyword_key_newline(text, res):
+    """break/continue/return/throw, a line terminator, then ':' (the word is
+    an object-literal key or a label-like position)"""
+    for m in _words(text):
+        if m.group() in ('break', 'continue', 'return', 'throw'):
+            p, nl = _skip_forward(text, m.end())
+            if nl and text[p:p + 1] == ':':
+                return True
+    return False
+
+
 def t_keyword_property_then_newline_or_slash(text, res):
     """a reserved word used as a property name (after '.'), followed by a
     line terminator or by '/'"""
